@@ -27,7 +27,11 @@ func (w *World) ReinitItem(carrierRound string, body *ctypes.ReDKG, rawBody []by
 		sb.WriteString(" bad")
 	} else {
 		hash, _ := ctypes.CalcStartReInitDKGMessageHash(data)
-		fmt.Fprintf(&sb, " ok %d %d %d", tok.Tok(dec.DKGID), tok.TokB(hash), len(dec.Participants))
+		idTok := tok.Tok(dec.DKGID)
+		if strings.TrimSpace(dec.DKGID) == "" { // a blank identifier is no identifier (token 0)
+			idTok = 0
+		}
+		fmt.Fprintf(&sb, " ok %d %d %d", idTok, tok.TokB(hash), len(dec.Participants))
 		for _, p := range dec.Participants {
 			fmt.Fprintf(&sb, " %d %d", tok.Tok(p.Name), tok.TokB(p.NewCommPubKey))
 		}
